@@ -68,7 +68,7 @@ Print Assumptions best_index_attains.
 Theorem exec_matches_promise : forall (prune : vlist -> vlist),
   (forall l e, In e (prune l) -> In e l) -> (forall l, l <> [] -> prune l <> []) ->
   (forall S l b, l <> [] -> wfl S l -> nonneg b -> length b = S -> vbest (prune l) b == vbest l b) ->
-  forall m h tau, wf_pomdp m -> obs_clean m -> nonneg tau -> length tau = nS (pm m) ->
+  forall m h tau, wf_pomdp1 m -> obs_clean m -> nonneg tau -> length tau = nS (pm m) ->
   let '(older, cur) := ip_chain prune m h in
   exec_return m older cur (best_index cur tau) tau == vbest cur tau /\ vbest cur tau == EV m h tau.
 Proof.
@@ -119,14 +119,14 @@ Print Assumptions point_backup_value.
 (* A value function made of plans is a sound LOWER bound on the optimal value (for every solver's
    output, whatever produced it): no conditional plan can promise more than expectimax, provided the
    horizon-0 entries promise nothing. *)
-Theorem plan_le_EV : forall m, wf_pomdp m -> forall older cur i tau, chain_ok m older cur ->
+Theorem plan_le_EV : forall m, wf_pomdp1 m -> forall older cur i tau, chain_ok m older cur ->
   (forall e tau', In e (last (cur :: older) []) -> dot (vals e) tau' == 0) ->
   (i < length cur)%nat -> nonneg tau -> length tau = nS (pm m) ->
   dot (vals (nth i cur dummy_entry)) tau <= EV m (length older) tau.
 Proof. exact plan_le_EV_lemma. Qed.
 Print Assumptions plan_le_EV.
 
-Theorem plan_surface_le_EV : forall m, wf_pomdp m -> forall older cur tau, chain_ok m older cur -> cur <> [] ->
+Theorem plan_surface_le_EV : forall m, wf_pomdp1 m -> forall older cur tau, chain_ok m older cur -> cur <> [] ->
   (forall e tau', In e (last (cur :: older) []) -> dot (vals e) tau' == 0) ->
   nonneg tau -> length tau = nS (pm m) -> vbest cur tau <= EV m (length older) tau.
 Proof. exact plan_surface_le_EV_lemma. Qed.
